@@ -526,3 +526,20 @@ VARIANTS += [
     dict(prop="C05", name="mac-keys-ceil-by-hand", benign=True,
          edits=[dict(file=MSF, find="    let amount_of_keys: usize = usize::try_from(S::Share::BITS).unwrap().div_ceil(32);", replace="    let amount_of_keys: usize = (usize::try_from(S::Share::BITS).unwrap() + 31) / 32;")]),
 ]
+
+VARIANTS += [
+    dict(prop="C13", name="read-size-next-power-of-two", expect="ALIGN|new_with:formula",
+         edits=[dict(file=GSF, find="            non_zero_prev_power_of_two(target)\n        };", replace="            std::cmp::max(1, target)\n        };")]),
+    dict(prop="C13", name="read-size-assert-removed", expect="ALIGN|new_with:assert:capacity%read_size==0",
+         edits=[dict(file=GSF, find="        assert_eq!(0, this.total_capacity.get() % this.read_size.get());\n", replace="")]),
+    dict(prop="C13", name="read-size-min-swapped", benign=True,
+         edits=[dict(file=GSF, find="                std::cmp::min(total_capacity, read_size_multiplier * record_size)", replace="                std::cmp::min(read_size_multiplier * record_size, total_capacity)")]),
+]
+
+QEF = "ipa-core/src/query/executor.rs"
+VARIANTS += [
+    dict(prop="C09", name="result-rows-reversed", expect="LAYOUT-result",
+         edits=[dict(file=QEF, find="        for (i, row) in self.iter().enumerate() {\n            row.serialize(GenericArray::from_mut_slice(", replace="        for (i, row) in self.iter().rev().enumerate() {\n            row.serialize(GenericArray::from_mut_slice(")]),
+    dict(prop="C09", name="result-skips-last-row", expect="LAYOUT-result|no-truncation",
+         edits=[dict(file=QEF, find="        for (i, row) in self.iter().enumerate() {\n            row.serialize(GenericArray::from_mut_slice(", replace="        for (i, row) in self.iter().enumerate().take(self.len().saturating_sub(1).max(1)) {\n            row.serialize(GenericArray::from_mut_slice(")]),
+]
